@@ -37,7 +37,7 @@ FILES = {
     "sdo/client.py": ["C01", "C07", "C12", "C13", "C06", "C03"],
     "sdo/server.py": ["C02", "C06", "C07", "C03"],
     "sdo/base.py": ["C03", "C01"],
-    "node/local.py": ["C02", "C06", "C10", "C17", "C11", "C03"],
+    "node/local.py": ["C02", "C06", "C10", "C16", "C17", "C11", "C03"],
     "node/remote.py": ["C10", "C09"],
     "node/base.py": ["C10"],
     "variable.py": ["C03", "C15"],
